@@ -196,10 +196,22 @@ def s2_guarded_insertion(chk, db, rec_q, funcs, needs_full):
         construct = astx.sig(f)
         chk.instance("S2")
         bad = None
+        keys = set(p0["n"] for p0 in f["params"])
+        reach_gt = False
+        any_ins = False
         for p in paths(f["body"]):
             lb_vars = set()
             have_lb = have_test = have_full = False
+            feasible = {"=": True, ">": True}
+            modelled = True
+            lcn = set(cn)
             for ev in p:
+                if ev[0] == "decl" and ev[1].get("init") is not None:
+                    init0 = ev[1]["init"]
+                    if mentions(init0, cn) and not calls_in(init0):
+                        lcn.add(ev[1]["n"])
+                    elif not any(astx.callee(c)[0] in ("lower_bound", "find", "upper_bound") for c in calls_in(init0)):
+                        keys.add(ev[1]["n"])      # auto key = Key{args...};
                 for e in event_exprs(ev):
                     for c in calls_in(e):
                         nm = astx.callee(c)[0]
@@ -214,6 +226,13 @@ def s2_guarded_insertion(chk, db, rec_q, funcs, needs_full):
                     if ev[0] == "cond" and lb_vars and mentions(e, lb_vars):
                         # the test on the position: pos == end() or a comparison of (key, *pos)
                         have_test = True
+                        # decided in the two orderings lower_bound leaves open: element == key / element > key
+                        for o in "=>":
+                            t = pred_truth(_subst_end_tests(e), lb_vars, keys, lcn, o)
+                            if t is None:
+                                modelled = False
+                            elif t != ev[2]:
+                                feasible[o] = False
                     if ev[0] == "cond" and any(astx.callee(c)[0] == "full" for c in calls_in(e)) and ev[2] is False if \
                             (e.get("k") != "un") else (ev[0] == "cond" and any(astx.callee(c)[0] == "full" for c in calls_in(e)) and ev[2] is True):
                         have_full = True
@@ -228,10 +247,25 @@ def s2_guarded_insertion(chk, db, rec_q, funcs, needs_full):
                                 miss.append("the !full() test")
                             if miss and bad is None:
                                 bad = (c, miss)
+                            any_ins = True
+                            if have_lb and have_test and modelled:
+                                if feasible["="] and bad is None:
+                                    bad = (c, ["a uniqueness test that excludes an equivalent element (the insertion is reached when the "
+                                               "element at the position is equivalent to the key)"])
+                                if feasible[">"]:
+                                    reach_gt = True
+                            else:
+                                reach_gt = True
+        if any_ins and not reach_gt and bad is None:
+            bad = (None, ["NONE"])
+        if False:
+            pass
         chk.obligation("S2", construct, bad is None)
         if bad:
             chk.violation("S2", construct, "unguarded-insertion",
-                          "%s: `%s` is reachable without %s" % (astx.loc(f, bad[0]), astx.show(bad[0], 80), " and ".join(bad[1])),
+                          ("%s: no insertion is reachable when the element at the lower_bound position is greater than the key: a key "
+                           "whose successor is already stored is never inserted" % astx.loc(f)) if bad[1] == ["NONE"] else
+                          "%s: `%s` is reachable without %s" % (astx.loc(f, bad[0]), astx.show(bad[0], 80) if bad[0] else f["n"], " and ".join(bad[1])),
                           {"where": astx.loc(f)})
     return n
 
